@@ -26,9 +26,13 @@ CHECKS["C12"] = {"category": "proof",
   "text": "Same outlined loop bodies, ill-formed half: every ill-formed or truncated sequence is counted once and replaced by exactly one mark (Skip) or fails with InvalidSequence at its start (ThrowError), truncated well-formed prefixes return UnexpectedEnd at the sequence start, nothing ill-formed is propagated, no following well-formed start is swallowed, and all reads stay inside the input (CBMC pointer obligations on a window of exactly the remaining length).",
   "note": "same as C11",
   "technique": _T + "per-character step contracts on mechanically outlined loop bodies, error branch (R2, SAT)"}
+CHECKS["C10"] = {"category": "proof",
+  "text": "CBinaryStreamReader (every public method + constructor) is proved from an arbitrary well-formed state against an abstract view (stream contents, logical position) that does not mention the 256-byte chunk: each method re-establishes the class invariant and hands out exactly the bytes at the logical position, for every alignment of cursor/block relative to the chunk and every stream length; MsgPack memory and stream writers are proved against the same byte-exact specification. Stream readers of MsgPack/CSV are listed in the evidence when under the same contract.",
+  "note": "istream model ([istream.unformatted] rules, stream initially at offset 0, no badbit); buffer contents followed by ghost state updated only by the read/memcpy models; JSON/XML stream paths are inside third-party libraries",
+  "technique": _T + "class invariant + abstract-view postconditions on the real CBinaryStreamReader, ghost content tracking (R2, SAT)"}
 _NR = "not reached yet in this round: the check is not built; see DESIGN.md §0 for the planned contracts"
 NOT_APPLICABLE = {
  "C08": "well-formedness and acceptance of JSON/XML text is decided inside RapidJSON and pugixml (third-party code outside /repo); no contract on /repo code can express it without a verified model of those libraries (DESIGN.md §4 C08)",
 }
-for _p in ["C01","C03","C05","C09","C10","C13","C14","C15","C16","C17","C18","C19","C20"]:
+for _p in ["C01","C03","C05","C09","C13","C14","C15","C16","C17","C18","C19","C20"]:
     NOT_APPLICABLE.setdefault(_p, _NR)
